@@ -29,7 +29,7 @@ type c12Case struct {
 func init() {
 	engine.Register(&engine.Check{
 		ID: "C12", Level: "exploration",
-		Rule:        "every ordered pair of non-degenerate directed segments on the 6x6 (quick) / 7x7 (thorough) integer grid (all argument orders and directions, all 16 envelope-membership combinations of the collinear branch), each also scaled by 2^20 and translated by (2^20,-2^19); plus a T-junction/touching lattice on rough integer coordinates up to 2^21 (an endpoint exactly on the other segment, all 8 role/direction variants; the endpoint must be returned bit-identical); plus +-1 ulp perturbations of touching / T-junction / collinear configurations with non-trivial mantissas (classification only). Oracle: exact rational classification none/point/overlap; endpoint intersections returned bit-identical; proper crossings within 8 ulps of (|x|+|y|+scale); overlap endpoints exact; NonRobustLineIntersector.HasIntersection = exact on grid inputs. distinct_nontrivial = distinct pairs whose segments intersect or whose envelopes overlap Also: every pair of consecutive segments of a path over the 5x5 grid with the common end point handed over as ONE coordinate in memory; lean T-junction probes (~3*10^6, classification only) over the near-collinear float families of C10; ~1000 exactly axis-parallel segments crossed properly by rough segments on grids [-2^k,2^k], k=17..20 (8 role/direction variants); long segments crossing at an angle of ~1e-6 on the 2^20 grid (8 symmetries x 8 role/direction variants, position within 8 ulps), and nearly coincident segments (each ordinate -2..2 ulps off) reaching the fallback paths (classification; reported point within rounding of both envelopes).",
+		Rule:        "every ordered pair of non-degenerate directed segments on the 6x6 (quick) / 7x7 (thorough) integer grid (all argument orders and directions, all 16 envelope-membership combinations of the collinear branch), each also scaled by 2^20 and translated by (2^20,-2^19); plus a T-junction/touching lattice on rough integer coordinates up to 2^21 (an endpoint exactly on the other segment, all 8 role/direction variants; the endpoint must be returned bit-identical); plus +-1 ulp perturbations of touching / T-junction / collinear configurations with non-trivial mantissas (classification only). Oracle: exact rational classification none/point/overlap; endpoint intersections returned bit-identical; proper crossings within 8 ulps of (|x|+|y|+scale); overlap endpoints exact; NonRobustLineIntersector.HasIntersection = exact on grid inputs. distinct_nontrivial = distinct pairs whose segments intersect or whose envelopes overlap Also: every pair of consecutive segments of a path over the 5x5 grid with the common end point handed over as ONE coordinate in memory; lean T-junction probes (~3*10^6, classification only) over the near-collinear float families of C10; ~1000 exactly axis-parallel segments crossed properly by rough segments on grids [-2^k,2^k], k=17..20 (8 role/direction variants); long segments crossing at an angle of ~1e-6 on the 2^20 grid (8 symmetries x 8 role/direction variants, position within 8 ulps), and nearly coincident segments (each ordinate -2..2 ulps off) reaching the fallback paths (classification; reported point within rounding of both envelopes). Round 9: collinear segment pairs whose ends overlap or miss by 0..3 ulps (7-value menu, 3 orientations, all 8 order/direction variants), exact classification.",
 		Run:         c12Run,
 		Replay:      func(c *engine.Ctx, kind string, raw json.RawMessage) { c12Exec(c, decodeCase[c12Case](raw)) },
 		Assumptions: []string{"segments of non-zero length; grid inputs make every intermediate of the homogeneous-coordinate computation exact, so only the final division and re-translation round"},
